@@ -376,6 +376,85 @@ def _negotiation_chunk(acc, headers):
                                   case={'kind': 'negotiation', 'header': header, 'supported': supported, 'side': side})
 
 
+def _keepalive_chunk(acc, pairs):
+    """Two (or three) requests on one keep-alive connection with different Accept-Encoding headers: every response is
+    negotiated with the header of its own request."""
+    from sdc11073.httpserver.compression import CompressionHandler
+    from sdc11073.httpserver.httprequesthandler import DispatchingRequestHandler
+    all_enc = list(CompressionHandler.available_encodings)
+    body = b'<a/>'
+    for headers in pairs:
+        for supported in (['gzip'], all_enc):
+            for chunk_size in (0, 7):
+                raw = b''
+                for h in headers:
+                    raw += (b'POST /dev/x HTTP/1.1\r\nHost: h\r\nContent-Length: ' + str(len(body)).encode() + b'\r\n'
+                            + (b'Accept-Encoding: ' + h.encode() + b'\r\n' if h is not None else b'') + b'\r\n' + body)
+                acc.add('states')
+                acc.transition(len(headers))
+                acc.evals()
+                acc.trace()
+                sock = _ReqSock(raw)
+                server = _Server(supported)
+                server.chunk_size = chunk_size
+                try:
+                    DispatchingRequestHandler(sock, ('10.0.0.9', 1234), server)
+                except Exception as ex:  # noqa: BLE001
+                    acc.violation(f'negotiation/keep-alive/raises/{type(ex).__name__}', {'headers': headers, 'error': repr(ex)[:200]},
+                                  case={'kind': 'keepalive', 'headers': list(headers), 'supported': supported})
+                    continue
+                out = sock.out.getvalue()
+                pos = 0
+                for i, h in enumerate(headers):
+                    class _NoClose(io.BytesIO):
+                        def close(self):
+                            pass
+
+                    class _S:
+                        def __init__(self, data):
+                            self.f = _NoClose(data)
+
+                        def makefile(self, *a, **k):  # noqa: ARG002
+                            return self.f
+                    sk = _S(out[pos:])
+                    import http.client
+                    resp = http.client.HTTPResponse(sk)
+                    try:
+                        resp.begin()
+                        payload = resp.read()
+                    except Exception as ex:  # noqa: BLE001
+                        acc.violation('negotiation/keep-alive/response-unreadable', {'headers': headers, 'index': i, 'error': repr(ex)[:100]},
+                                      case={'kind': 'keepalive', 'headers': list(headers), 'supported': supported})
+                        break
+                    pos += sk.f.tell()
+                    chosen = resp.getheader('Content-Encoding')
+                    acc.outcome(f'keep-alive:request{i}:coding={chosen}')
+                    if chosen is None:
+                        continue
+                    parsed = [] if h is None else [(m.split(';')[0], _qval(';' + m.split(';', 1)[1]) if ';' in m else 1.0)
+                                                   for m in h.split(',')]
+                    if chosen not in supported or not acceptable(parsed, chosen):
+                        acc.violation(f'negotiation/keep-alive/request{i}-answered-with-coding-of-another-request/{chosen}',
+                                      {'headers': headers, 'index': i, 'chosen': chosen, 'enabled_locally': supported},
+                                      case={'kind': 'keepalive', 'headers': list(headers), 'supported': supported})
+                        break
+                    try:
+                        if not CompressionHandler.decompress_payload(chosen, payload).startswith(b'<'):
+                            raise ValueError('payload is not the original')
+                    except Exception as ex:  # noqa: BLE001
+                        acc.violation(f'negotiation/keep-alive/body-not-in-announced-coding/{chosen}', {'headers': headers, 'error': repr(ex)[:100]},
+                                      case={'kind': 'keepalive', 'headers': list(headers), 'supported': supported})
+                        break
+
+
+def keepalive_headers(quick):
+    hs = [None, 'gzip', 'gzip;q=0', 'identity', 'x-lz4', '*', 'gzip;q=0, *', 'deflate, gzip;q=0.5']
+    out = [tuple(p) for p in itertools.product(hs, repeat=2)]
+    if not quick:
+        out += [tuple(p) for p in itertools.product(hs[:5], repeat=3)]
+    return out
+
+
 def _header_class(parsed, chosen):
     qs = sorted({q for t, q in parsed if t.strip().lower() == chosen})
     star = sorted({q for t, q in parsed if t.strip() == '*'})
@@ -416,6 +495,9 @@ def run(ctx):
     heads.append(((('gzip', ''),), ','))
     n = max(1, len(heads) // 64)
     ctx.pmap(_negotiation_chunk, [heads[i:i + n] for i in range(0, len(heads), n)], chunksize=1)
+    ka = keepalive_headers(ctx.quick)
+    ctx.note('keep_alive_header_sequences', len(ka))
+    ctx.pmap(_keepalive_chunk, [ka[i:i + 8] for i in range(0, len(ka), 8)], chunksize=1)
     # header absent / empty
     for supported in ([], ['gzip']):
         for header in (None, ''):
@@ -431,7 +513,14 @@ def run(ctx):
     ctx.assumptions.append('sockets are in-memory; http.client.HTTPResponse is trusted as the HTTP/1.1 chunked-framing oracle')
 
 
+def _replay_keepalive(ctx, case):
+    _keepalive_chunk(ctx, [tuple(case['headers'])])
+    return {'headers': case['headers']}
+
+
 def replay(ctx, case):
+    if case.get('kind') == 'keepalive':
+        return _replay_keepalive(ctx, case)
     kind = case['kind']
     if kind == 'framing':
         body = bytes.fromhex(case['body']) if isinstance(case['body'], str) else (bytes(range(256)) * 30000)[:case['body']]
